@@ -21,6 +21,32 @@ pub struct Layer {
     kmeans: Vec<Histogram>, // positioned by K-means abstraction
 }
 
+#[cfg(all(robopoker_verif, feature = "native"))]
+impl Layer {
+    /// verification hooks: a layer from given parts, and its private clustering steps
+    pub fn verif_new(street: Street, metric: Metric, points: Vec<Histogram>, kmeans: Vec<Histogram>) -> Self {
+        Self { street, metric, points, kmeans }
+    }
+    pub fn verif_init(&self) -> Vec<Histogram> {
+        self.init()
+    }
+    pub fn verif_next(&self) -> Vec<Histogram> {
+        self.next()
+    }
+    pub fn verif_neighborhood(&self, x: &Histogram) -> (usize, f32) {
+        self.neighborhood(x)
+    }
+    pub fn verif_emd(&self, x: &Histogram, y: &Histogram) -> Energy {
+        self.emd(x, y)
+    }
+    pub fn verif_lookup(&self) -> Lookup {
+        self.lookup()
+    }
+    pub fn verif_metric(&self) -> Metric {
+        self.metric()
+    }
+}
+
 impl Layer {
     #[cfg(feature = "native")]
     /// all-in-one entry point for learning the kmeans abstraction and
